@@ -33,7 +33,7 @@ from lib import impl
 from lib.core import cN, cbytes, clist, copt, cpair, vL, vN, vset
 
 PROPERTY = "C18"
-GEN = ["storagemap"]  # Gen/StorageMap.v: StorageMapping.__getitem__ + StorageInfo, regenerated every run
+GEN = ["storagemap", "fetchcall"]  # Gen/FetchCall.v: the transfer() calls of fetch()/push(); Gen/StorageMap.v: StorageMapping.__getitem__ + StorageInfo, regenerated every run
 RULE = (
     "indexes of 1-4 items (directory entries with nested listings sub/.., sub/deep/.., shared and empty "
     "contents, the same directory object under two keys; plain file entries) x storage maps of 1-3 prefixes "
